@@ -9,13 +9,12 @@ import (
 	"testing"
 
 	"verif/internal/credx"
-	"verif/internal/ev"
 )
 
 // Frozen minimal reproduction of the first C20 defect: empty store, add(alice) acknowledged,
 // the save (either trigger) can write only k bytes.
 func TestRegressionPartialWrite(t *testing.T) {
-	base, err := os.MkdirTemp(workDir(), "c20g-")
+	base, err := os.MkdirTemp(workDir(), "verif-c20-g-")
 	if err != nil {
 		t.Fatal(err)
 	}
@@ -39,8 +38,8 @@ func TestRegressionPartialWrite(t *testing.T) {
 		for _, r := range out.Results {
 			v := judge(r.File, 16, spec.Stores, prev, next, base, cache)
 			if v.set == "" {
-				if ev.IsKnown("C20", sigPartial) {
-					recFaults.KnownHit(sigPartial)
+				if isKnown(sigPartial) {
+					recFaults.KnownHit(listedSig(sigPartial))
 					continue
 				}
 				t.Errorf("SIG=C20/%s store \"{}\\n\", add(alice) acknowledged, save via %s limited to %d of %d bytes: store file is now %q: %s",
